@@ -371,7 +371,9 @@ func hostileWorkload(r *mon.Run, run func(hostileCase) (consumedIfAllRejected in
 		}{
 			{"choice shortcut", func(a, b string) string { return a + " | " + b }},
 			{"or list", func(a, b string) string { return `1 // {or: ["` + a + `", "` + b + `"]}` }},
-			{"or rule-sets", func(a, b string) string { return `1 // {or: [{type: "` + a + `"}, {type: "` + b + `", nullable: true}]}` }},
+			{"or rule-sets", func(a, b string) string {
+				return `1 // {or: [{type: "` + a + `"}, {type: "` + b + `", nullable: true}]}`
+			}},
 			{"choice in an optional member", func(a, b string) string { return `{"k": ` + a + ` | ` + b + ` // {optional: true}` + "\n}" }},
 			{"array of a choice", func(a, b string) string { return `[` + a + ` | ` + b + `]` }},
 			{"additionalProperties + key shortcut", func(a, b string) string { return `{} // {additionalProperties: "` + a + `"}` }},
